@@ -1,7 +1,7 @@
 (* C09 — instance modes: one instance per daemon ('single'), per connection ('session') or per
    call ('percall'), whatever the instances look like.  Property theorems only.
 
-   Model (Model/Instances.v): events [Call conn cls] / [Close conn]; [world] = what the n-th creator
+   Model (Model/Instances.v): events [Call conn cls] / [Close conn how] (how = orderly / reset / stale socket / after an error); [world] = what the n-th creator
    invocation does for a class (fail, wrong type, or an instance with arbitrary truthiness / __eq__ bits)
    is universally quantified; [modes] assigns a mode to every class; the trace pairs every event with the
    instance that served it.  [code_shape] is regenerated from Pyro5/server.py and socketutil.py on every run. *)
@@ -74,19 +74,19 @@ Proof. exact (single_failing_creator code_shape C09_source_shape). Qed.
 Print Assumptions C09_single_failing_creator.
 
 (* 'session': two calls on the class are served by the same instance if and only if they come over
-   the same connection with no Close of it in between (so: one instance per connection, never seen by
+   the same connection with no Close of it (of any kind) in between (so: one instance per connection, never seen by
    another connection, not surviving the end of the connection). *)
 Theorem C09_session_private :
   forall (w : world) (modes : nat -> imode) (h : list event) t1 t2 t3 k k' c a b,
   snd (run_hist code_shape w modes h st0) = t1 ++ (Call k c, Served a) :: t2 ++ (Call k' c, Served b) :: t3 ->
   modes c = MSession ->
-  (iid a = iid b <-> (k = k' /\ forall o, ~ In (Close k, o) t2)) /\ (iid a = iid b -> a = b).
+  (iid a = iid b <-> (k = k' /\ forall how o, ~ In (Close k how, o) t2)) /\ (iid a = iid b -> a = b).
 Proof. exact (session_private code_shape C09_source_shape). Qed.
 Print Assumptions C09_session_private.
 
 Theorem C09_session_dropped :
-  forall (w : world) (modes : nat -> imode) (h : list event) (k c : nat),
-  sessions (fst (run_hist code_shape w modes (h ++ [Close k]) st0)) k c = None.
+  forall (w : world) (modes : nat -> imode) (h : list event) (k : nat) (how : ending) (c : nat),
+  sessions (fst (run_hist code_shape w modes (h ++ [Close k how]) st0)) k c = None.
 Proof. exact (session_dropped code_shape C09_source_shape). Qed.
 Print Assumptions C09_session_dropped.
 
@@ -148,7 +148,7 @@ Example C09_nonvacuous_hist :
   let w := script_world [OMade false true; OFail; OMade true false] (OMade false false) in
   let modes := fun c => match c with 0 => MSingle | 1 => MSession | _ => MPercall end in
   map snd (snd (run_hist shape_fixed w modes
-     [Call 0 0; Call 1 0; Call 0 1; Call 1 1; Call 0 1; Close 0; Call 0 1; Call 0 2; Call 0 2] st0)) =
+     [Call 0 0; Call 1 0; Call 0 1; Call 1 1; Call 0 1; Close 0 EReset; Call 0 1; Call 0 2; Call 0 2] st0)) =
   [Served (mk_inst 0 0 false true); Served (mk_inst 0 0 false true); Failed false;
    Served (mk_inst 2 1 true false); Served (mk_inst 3 1 false false); Closed;
    Served (mk_inst 4 1 false false); Served (mk_inst 5 2 false false); Served (mk_inst 6 2 false false)].
